@@ -29,7 +29,8 @@ MODULE = 'Sbepp.Properties.C10'
 THEOREMS = [
     'Sbepp.Properties.C10.sizeCheck_sound',
     'Sbepp.Properties.C10.sizeCheck_complete',
-    'Sbepp.Properties.C10.sizeCheck_sound_full_false',
+    'Sbepp.Properties.C10.sizeCheck_past_end_rejected',
+    'Sbepp.Properties.C10.sizeCheck_sound_full_proved',
     'Sbepp.Properties.C10.sizeCheck_wrap_full_false',
     'Sbepp.Properties.C10.end_propagates',
     'Sbepp.Properties.C10.end_args_extracted',
@@ -192,7 +193,9 @@ def judge(chk, run, it, cxx, std, impl, stats):
                             'image': wire.hexs(it.img)})
             cause = 'none'
             if bad:
-                if ev.huge:
+                if ev.huge or got == 'U' or (ev.modelled and mrun[j] == 'U'):
+                    # a UBSan trap in a checked build is pointer arithmetic that overflowed; the model reports the
+                    # same situation as undefined: both only arise from 64-bit header values
                     cause = 'pointer-range-overflow'
                 elif past:
                     cause = 'view-begins-past-end'
@@ -284,7 +287,8 @@ def judge_cursor(chk, run, it, cxx, std, impl, stats):
                                                                  'kind': kind, 'image': wire.hexs(it.img)})
             cause = 'none'
             if bad:
-                cause = 'pointer-range-overflow' if huge else ('view-begins-past-end' if past else 'unknown')
+                cause = 'pointer-range-overflow' if (huge or got == 'U' or mrun[j] == 'U') else (
+                    'view-begins-past-end' if past else 'unknown')
             key = (j, bad, cause)
             if bad and key not in reported:
                 reported.add(key)
